@@ -818,10 +818,29 @@ def skip_edges(ck: Check, rule: str) -> None:
     gm = GrowthModel(prog)
     for fm in prog.models():
         if not any(e.kind == "store" and e.field == "skipped" for e in fm.field_events()):
+            if "skip" in fm.f.name and gm.events(fm):
+                # a skipping function that gives a node successors without flagging it: the flag is what tells a skip node
+                # (partial successor set, sound-only attractor data, F23's reset) from an ordinary expanded node
+                ck.ob(rule, fm, fm.f.node, False, f"`{fm.f.name}` creates skip edges but never sets the `skipped` flag of the node that "
+                      f"receives them: the node passes for an ordinary expanded node", key="skip flag")
             continue
         f = fm.f
         probs = []
         growth = gm.events(fm)
+        # the flag accompanies the edges: where the node that received skip edges is marked expanded it is marked skipped too
+        for e in fm.field_events():
+            if e.kind == "store" and e.field == "expanded" and is_true(e.value) and any(
+                    isinstance(g_.parent_expr, ast.Name) and g_.parent_expr.id == e.nid
+                    and e.cfgn.id in fm.cfg.reach_avoiding(g_.cfgn, []) for g_ in growth):
+                sk_ = [x.cfgn for x in fm.field_events() if x.kind == "store" and x.field == "skipped" and is_true(x.value) and x.nid == e.nid]
+                okf = bool(sk_) and (any(fm.cfg.dominates(x, e.cfgn) for x in sk_)
+                                     or not any(fm.cfg.nodes[i].kind == "exit" for i in fm.cfg.reach_avoiding(e.cfgn, sk_)))
+                lps0 = [l for l in fm.cfg.enclosing_loops(e.cfgn) if isinstance(l, ast.For)]
+                if okf and lps0 and not any(fm.cfg.dominates(x, e.cfgn) for x in sk_):
+                    okf = fm.cfg.loop_header[lps0[0]].id not in fm.cfg.reach_avoiding(e.cfgn, sk_)
+                ck.ob(rule, fm, e.stmt, okf, "a node that receives skip edges is flagged `skipped`" if okf else
+                      f"`{e.nid}` receives skip edges and is marked expanded without being flagged `skipped` on every path",
+                      key=f"skip flag: {e.nid}")
         if not growth:
             probs.append("a node is marked skipped without any skip edge being created")
         for g in growth:
@@ -884,6 +903,45 @@ def skip_edges(ck: Check, rule: str) -> None:
                     probs.append(f"line {x.lineno}: `{text(x)}` skips minimal trap spaces")
         ck.ob(rule, fm, f.node, not probs, "; ".join(sorted(set(probs))) if probs else
               "skip edges lead to every minimal trap space inside the node", key="skip edges")
+        # the nodes created for the minimal trap spaces are closed: a minimal trap space counts (minimal_trap_spaces(),
+        # node_is_minimal) only as an expanded node without successors, and nothing else will ever expand these nodes
+        probs = []
+        ens = [n for n in own_walk(f.node) if isinstance(n, ast.Assign) and isinstance(n.value, ast.Call) and callee_name(n.value) == "_ensure_node"
+               and isinstance(n.targets[0], ast.Name)]
+        for a_ in ens:
+            X = a_.targets[0].id
+            an = fm.cfgn(a_)
+            marks = [e.cfgn for e in fm.field_events() if e.kind == "store" and e.field == "expanded" and is_true(e.value) and e.nid == X]
+            lps_ = [l for l in fm.cfg.enclosing_loops(an) if isinstance(l, ast.For)]
+            reach = fm.cfg.reach_avoiding(an, marks)
+            leaves = (fm.cfg.loop_header[lps_[0]].id in reach) if lps_ else any(fm.cfg.nodes[i].kind == "exit" for i in reach)
+            if not marks or leaves:
+                probs.append(f"line {a_.lineno}: the node `{X}` created for a minimal trap space is not marked expanded on every path: it "
+                             f"stays a stub, is not listed among the minimal trap spaces, and no later call expands it")
+        if ens:
+            ck.ob(rule, fm, ens[0], not probs, "; ".join(sorted(set(probs))) if probs else
+                  "nodes created for minimal trap spaces are marked expanded", key="minimal trap nodes closed")
+        # a call that reports success for the node it was given has closed that node: on every path to `return True` the
+        # node is marked expanded (or was found expanded)
+        from .common import expanded_assertions
+        node_ps = [p_ for p_ in f.params() if p_ not in ("self", "sd") and "node" in p_]
+        probs = []
+        if node_ps:
+            np_ = node_ps[0]
+            marks = [e for e in fm.field_events() if e.kind == "store" and e.field == "expanded" and is_true(e.value) and e.nid == np_]
+            cuts = [e.cfgn for e in marks]
+            for e in marks[:1]:
+                cuts += expanded_assertions(fm, e.hk, True)
+            for r in own_walk(f.node):
+                if isinstance(r, ast.Return) and is_true(r.value):
+                    rn = fm.cfgn(r)
+                    back = fm.cfg.can_reach_avoiding(rn, cuts)
+                    if fm.cfg.entry.id in back:
+                        probs.append(f"line {r.lineno}: success is reported although `{np_}` may still be unexpanded: a node that is its own "
+                                     f"minimal trap space stays a stub and is missing from minimal_trap_spaces()")
+            if marks:
+                ck.ob(rule, fm, f.node, not probs, "; ".join(probs) if probs else f"`{np_}` is expanded on every successful return",
+                      key="success means closed")
         # a node that is closed *without* becoming a skip node (no edges, not flagged) is declared minimal: the evidence
         # must say that the only minimal trap space inside it is the node's own space
         evs = fm.field_events()
